@@ -62,7 +62,7 @@ def generate(rng, tier):
     # The statement maps None and NaN to missing; NaT is the datetime flavour of NaN and is only used among dates/datetimes.
     na_token = rng.choice(["None", "None", "nan", "npnan"])
     if kind in ("date", "datetime"):
-        na_token = rng.choice(["None", "nat"])
+        na_token = rng.choice(["None", "nat", "nan", "npnan"])
     marks = [False] * n
     if n:
         if na_pat == "all": marks = [True] * n
@@ -228,6 +228,32 @@ def execute(case):
         res.count("na_dtype-checked")
     except Exception as e:
         res.violate(f"na_dtype:raised:{exc_name(e)}:{canon.dtype_kind(v)}", f"{ctx}: astype(na_dtype)/assign na_value raised {e!r}")
+    # ---- same-object history: query, edit in place, query again
+    try:
+        if n >= 2:
+            w = v.astype(v.na_dtype)
+            before = np.asarray(w.is_na()).tolist()
+            w.tolist()
+            tgt = next((i for i, m in enumerate(before) if not m), None)
+            if tgt is not None:
+                w[tgt] = w.na_value
+                after = np.asarray(w.is_na()).tolist()
+                exp_after = [m or i == tgt for i, m in enumerate(before)]
+                tl2 = w.tolist()
+                if after != exp_after or (tl2[tgt] is not None):
+                    res.violate(f"history:na-assigned-in-place-not-seen:{canon.dtype_kind(w)}", f"{ctx}: after is_na(), assigning na_value at {tgt} and asking again: is_na {after} expected {exp_after}; tolist {canon.short(tl2)}")
+                d2 = w.drop_na()
+                if len(np.asarray(d2)) != sum(1 for m in exp_after if not m):
+                    res.violate(f"history:drop_na-after-in-place-edit:{canon.dtype_kind(w)}", f"{ctx}: drop_na kept {len(np.asarray(d2))} of {n} with NA mask {exp_after}")
+            src = next((i for i, m in enumerate(before) if not m and i != tgt), None)
+            hole = next((i for i, m in enumerate(np.asarray(w.is_na()).tolist()) if m), None)
+            if src is not None and hole is not None:
+                w[hole] = np.asarray(w)[src]
+                if bool(np.asarray(w.is_na())[hole]) or w.tolist()[hole] is None:
+                    res.violate(f"history:filled-cell-still-missing:{canon.dtype_kind(w)}", f"{ctx}: a missing cell overwritten in place with a value is still reported missing")
+        res.count("history-checked")
+    except Exception as e:
+        res.violate(f"history:raised:{exc_name(e)}:{canon.dtype_kind(v)}", f"{ctx}: {e!r}")
     # ---- drop_na / replace_na locality
     try:
         cells = canon.col_cells(v) if arr.dtype.kind != "O" else [canon.canon_obj(x) for x in arr.tolist()]
